@@ -3,7 +3,11 @@
  * inquiry and the data of every variable.
  *
  *   usage: c04_api <list-file> <output-prefix>
- *   list line:    <path>
+ *   list line:    <path> [<hint>=<value>]...      hints go into the MPI_Info given to ncmpi_open; the pseudo hint
+ *                 PNETCDF_SAFE_MODE=<0|1> sets that environment variable for the open instead
+ *   besides the by-id inquiries every object is also looked up BY NAME (ncmpi_inq_dimid, ncmpi_inq_varid,
+ *   ncmpi_inq_attid for global and per-variable attributes): a failed or wrong lookup is reported as
+ *   APIERR <err> byname-<kind>-<index>
  *   answer line (file <output-prefix>.<rank>):
  *     OK <fmt> <numrecs|0> <ndims> {name len}* <ngatts> {att}* <nvars> {name ndims dimid* natts att* type 0 begin}*
  *        | <header_size> <header_extent> <recsize> <unlimdimid> | <data of var 0 as big-endian hex> <var 1> ...
@@ -83,6 +87,8 @@ static int dump_atts(FILE *out, int ncid, int varid, int natts) {
         nc_type t; MPI_Offset n; void *buf;
         err = ncmpi_inq_attname(ncid, varid, i, name); if (err) return err;
         err = ncmpi_inq_att(ncid, varid, name, &t, &n); if (err) return err;
+        { int id2 = -1; err = ncmpi_inq_attid(ncid, varid, name, &id2);
+          if (err != NC_NOERR || id2 != i) return err != NC_NOERR ? err : NC_ENOTATT; }
         buf = calloc((size_t)n + 1, 8);
         if (n > 0) { err = get_att(ncid, varid, name, t, buf); if (err) { free(buf); return err; } }
         fputc(' ', out); hex(out, name, strlen(name));
@@ -109,9 +115,23 @@ int main(int argc, char **argv) {
         int ncid, err, fmt, ndims, nvars, ngatts, unlim, i, j;
         MPI_Offset numrecs = 0, hsize, hext, recsize;
         MPI_Offset dimlen[4096];
-        if (sscanf(line, "%4095s", path) != 1) continue;
+        MPI_Info info = MPI_INFO_NULL;
+        char *tk, *save = NULL;
+        tk = strtok_r(line, " \n", &save);
+        if (!tk) continue;
+        strncpy(path, tk, sizeof path - 1); path[sizeof path - 1] = 0;
+        unsetenv("PNETCDF_SAFE_MODE");
+        while ((tk = strtok_r(NULL, " \n", &save)) != NULL) {
+            char *eq = strchr(tk, '=');
+            if (!eq) continue;
+            *eq = 0;
+            if (!strcmp(tk, "PNETCDF_SAFE_MODE")) { setenv("PNETCDF_SAFE_MODE", eq + 1, 1); continue; }
+            if (info == MPI_INFO_NULL) MPI_Info_create(&info);
+            MPI_Info_set(info, tk, eq + 1);
+        }
         alarm(10);   /* per-request watchdog: a hang is a result (the driver script restarts after it) */
-        err = ncmpi_open(MPI_COMM_WORLD, path, NC_NOWRITE, MPI_INFO_NULL, &ncid);
+        err = ncmpi_open(MPI_COMM_WORLD, path, NC_NOWRITE, info, &ncid);
+        if (info != MPI_INFO_NULL) MPI_Info_free(&info);
         if (err != NC_NOERR) { fprintf(out, "ERR %d\n", err); fflush(out); continue; }
         err = ncmpi_inq_format(ncid, &fmt); CHK(err);
         err = ncmpi_inq(ncid, &ndims, &nvars, &ngatts, &unlim); CHK(err);
@@ -120,6 +140,8 @@ int main(int argc, char **argv) {
         for (i = 0; i < ndims; i++) {
             char name[NC_MAX_NAME + 1]; MPI_Offset len;
             err = ncmpi_inq_dim(ncid, i, name, &len); CHK(err);
+            { int id2 = -1; err = ncmpi_inq_dimid(ncid, name, &id2);
+              if (err != NC_NOERR || id2 != i) { fprintf(out, " APIERR %d byname-dim-%d\n", err, i); goto next; } }
             if (i < 4096) dimlen[i] = len;
             fputc(' ', out); hex(out, name, strlen(name));
             fprintf(out, " %lld", (long long)(i == unlim ? 0 : len));
@@ -132,6 +154,8 @@ int main(int argc, char **argv) {
             if (nd > 1024) { fprintf(out, " TOOMANYDIMS\n"); goto next; }
             err = ncmpi_inq_var(ncid, i, name, &t, &nd, dimids, &natts); CHK(err);
             err = ncmpi_inq_varoffset(ncid, i, &off); CHK(err);
+            { int id2 = -1; err = ncmpi_inq_varid(ncid, name, &id2);
+              if (err != NC_NOERR || id2 != i) { fprintf(out, " APIERR %d byname-var-%d\n", err, i); goto next; } }
             fputc(' ', out); hex(out, name, strlen(name));
             fprintf(out, " %d", nd);
             for (j = 0; j < nd; j++) fprintf(out, " %d", dimids[j]);
